@@ -17,7 +17,7 @@ Oracle on the agent's request log:
  (3) if a binding the client reads does not advance beyond the OID requested
      at its position (GETNEXT: any binding; GETBULK: first repetition of a
      column) the operation ends with FaultySNMPImplementation, or - lenient
-     mode - ends normally;
+     mode - ends normally; either way no request follows that answer;
  (4) nothing is yielded twice, nothing outside the roots, nothing the agent
      did not send.
 """
@@ -230,6 +230,14 @@ def make_run(opname, uname, client):
         # (3) non-advancing answers
         stalled = first_stall(reqs, family)
         facts["stalled"] = stalled
+        if stalled is not None and nreq > stalled + 1:
+            # the operation ends with that answer: nothing is requested after
+            # it (after an answer with fewer bindings than asked for the client
+            # may first ask for the rest of the row and judge the whole row)
+            e = reqs[stalled]
+            was_short = len(e.get("response", {}).get("varbinds", ())) < len(e["msg"]["pdu"]["varbinds"])
+            if not was_short:
+                bad("continued-after-non-advancing-answer", stalled_request=stalled, requests_made=nreq)
         if stalled is not None and not isinstance(exc, world.Horizon):
             if lenient:
                 if exc is not None:
